@@ -3,10 +3,14 @@
 package logqlengine
 
 import (
+	"time"
+
 	"go.opentelemetry.io/collector/pdata/pcommon"
 
+	"github.com/tdakkota/docker-logql/internal/iterators"
 	"github.com/tdakkota/docker-logql/internal/logql"
 	"github.com/tdakkota/docker-logql/internal/logql/logqlengine/logqlmetric"
+	"github.com/tdakkota/docker-logql/internal/otelstorage"
 )
 
 var verifNamesC10 = []string{"a", "ab", "b", "c"}
@@ -178,3 +182,105 @@ func verifC10KeyOrderGrouped() {
 }
 
 func VerifHarness_C10_KeyOrderGrouped_MapOrder() { verifC10KeyOrderGrouped() }
+
+// C10-O5: the empty label set has ONE identity.  vector(n) carries the metric
+// engine's own empty label set, an aggregation `by (l)` over series without l
+// leaves a per-record label set with nothing visible: both are the series {},
+// so they must share a grouping key (binary operators join on it).
+func VerifHarness_C10_EmptySetKey() {
+	t0 := time.Unix(1700000000, 0)
+	it, err := logqlmetric.Build(&logql.VectorExpr{Value: 7}, nil, logqlmetric.EvalParams{Start: t0, End: t0, Step: time.Second})
+	vsymAssert(err == nil, "vector(7) builds")
+	var st logqlmetric.Step
+	vsymAssert(it.Next(&st) && len(st.Samples) == 1, "vector(7) yields one series")
+	empty := st.Samples[0].Set
+	vsymAssert(len(empty.AsLokiAPI()) == 0, "vector(n) has no labels")
+
+	set := verifLabelSet([]string{"a", "b"}, []string{vsymString("val", 1), vsymString("val", 1)})
+	var hidden logqlmetric.AggregatedLabels
+	switch vsymChoice("how", 3) {
+	case 0:
+		hidden = newAggregatedLabels(set, buildSet[logql.Label](nil, "nope"), nil)
+	case 1:
+		hidden = newAggregatedLabels(set, nil, buildSet[logql.Label](nil, "a", "b"))
+	default:
+		hidden = newAggregatedLabels(set, nil, nil).By("nope")
+	}
+	vsymAssert(len(hidden.AsLokiAPI()) == 0, "nothing is visible after the grouping")
+	if hidden.Key() != empty.Key() {
+		vsymFinding("F24", true, "the empty label set has two grouping keys: vector(n) uses 0, a record label set with nothing left after by/without hashes an empty stream to another value, so e.g. `sum by (nope) (count_over_time(...)) + vector(7)` joins nothing and returns an empty result")
+		return
+	}
+	vsymAssert(hidden.Key() == empty.Key() && hidden.Key() == hidden.By("x").Key(), "equal (empty) label sets share one grouping key")
+	vsymReach("C10_empty_set_key")
+}
+
+// C10-O6: the sample iterator gives every sample the label set of ITS record
+// (under the range aggregation's own grouping), whatever the records before
+// it carried: consecutive records whose label sets contain one another are
+// still distinct series.
+func verifC10Sampler(N int) {
+	var ents []entry
+	hasB := make([]bool, N)
+	valB := make([]string, N)
+	for j := 0; j < N; j++ {
+		set := newLabelSet()
+		set.Set("a", pcommon.NewValueStr("x"))
+		hasB[j] = vsymBool("hasB")
+		valB[j] = vsymString("b", 1)
+		if hasB[j] {
+			set.Set("b", pcommon.NewValueStr(valB[j]))
+		}
+		ents = append(ents, entry{ts: otelstorage.Timestamp(1000 + j), line: "line" + string(rune('0'+j)), set: set})
+	}
+	expr := &logql.RangeAggregationExpr{Op: logql.RangeOpCount}
+	grouping := vsymChoice("grouping", 3)
+	switch grouping {
+	case 1:
+		expr.Op = logql.RangeOpAvg
+		expr.Range.Unwrap = &logql.UnwrapExpr{Label: "a"}
+		expr.Grouping = &logql.Grouping{Labels: []logql.Label{"b"}}
+	case 2:
+		expr.Op = logql.RangeOpAvg
+		expr.Range.Unwrap = &logql.UnwrapExpr{Label: "a"}
+		expr.Grouping = &logql.Grouping{Labels: []logql.Label{"a"}, Without: true}
+	}
+	if grouping != 0 {
+		// unwrap needs a number
+		for j := range ents {
+			ents[j].set.Set("a", pcommon.NewValueStr("1"))
+		}
+	}
+	it, err := newSampleIterator(iterators.Slice(ents), expr)
+	vsymAssert(err == nil, "sample iterator builds")
+	var s logqlmetric.SampledEntry
+	var keys []uint64
+	j := 0
+	for it.Next(&s) {
+		vsymAssert(j < N && uint64(s.Timestamp) == uint64(1000+j), "every record yields one sample, in order, with its timestamp")
+		got := map[string]string(s.Set.AsLokiAPI())
+		want := map[string]string{}
+		if grouping == 0 {
+			want["a"] = "x"
+		}
+		if hasB[j] {
+			want["b"] = valB[j]
+		}
+		vsymAssert(verifMapEq(got, want), "a sample carries the labels of its own record")
+		keys = append(keys, s.Set.Key())
+		j++
+	}
+	vsymAssert(j == N, "no record is skipped")
+	for p := 0; p < N; p++ {
+		for q := 0; q < p; q++ {
+			same := hasB[p] == hasB[q] && (!hasB[p] || valB[p] == valB[q])
+			if same {
+				vsymAssert(keys[p] == keys[q], "equal label sets share a key")
+			}
+		}
+	}
+	vsymReach("C10_sampler")
+}
+
+func VerifHarness_C10_Sampler_2() { verifC10Sampler(2) }
+func VerifHarness_C10_Sampler_3() { verifC10Sampler(3) }
